@@ -1,6 +1,7 @@
 #!/bin/sh
 # tools/confirm_mutant.sh <worktree> <mutant-dir>   — confirm a seeded change in a scratch worktree:
 # the crate compiles, the existing suite passes with it, its demo fails with it and passes without.
+# DEMO_FEATURES=<features> runs the demo with --features <features> (demos behind a non-default cargo feature).
 wt="$1"; m="$2"
 export CARGO_NET_OFFLINE=true CARGO_TARGET_DIR="$wt/target"
 cd "$wt" || exit 2
@@ -10,9 +11,10 @@ git apply "$m/patch.diff" || { echo "apply: FAIL" >> "$res"; exit 1; }
 echo "apply: ok" >> "$res"
 if cargo test --offline --workspace --no-fail-fast > "$m/suite_with.log" 2>&1; then echo "suite_with_change: pass" >> "$res"; else echo "suite_with_change: FAIL" >> "$res"; fi
 cp "$m/demo.rs" tests/demo.rs
-if cargo test --offline --test demo > "$m/demo_with.log" 2>&1; then echo "demo_with_change: pass (UNEXPECTED)" >> "$res"; else echo "demo_with_change: fails" >> "$res"; fi
+if cargo test --offline ${DEMO_FEATURES:+--features $DEMO_FEATURES} --test demo > "$m/demo_with.log" 2>&1; then echo "demo_with_change: pass (UNEXPECTED)" >> "$res"; else echo "demo_with_change: fails" >> "$res"; fi
 rm -f tests/demo.rs; git checkout -q -- .
 cp "$m/demo.rs" tests/demo.rs
-if cargo test --offline --test demo > "$m/demo_without.log" 2>&1; then echo "demo_without_change: pass" >> "$res"; else echo "demo_without_change: FAIL" >> "$res"; fi
+if cargo test --offline ${DEMO_FEATURES:+--features $DEMO_FEATURES} --test demo > "$m/demo_without.log" 2>&1; then echo "demo_without_change: pass" >> "$res"; else echo "demo_without_change: FAIL" >> "$res"; fi
 rm -f tests/demo.rs; git checkout -q -- .
+[ -n "$DEMO_FEATURES" ] && echo "demo_features: $DEMO_FEATURES" >> "$res"
 cat "$res"
